@@ -82,13 +82,13 @@ func genGrp(r *Rng, tier string) *Enc {
 				// cycle deterministically through every numeric width
 				w := allWidths[(i+ci+r.Intn(2))%len(allWidths)]
 				d[i] = scaleNum(w, r.Range(-3, 6))
-				if _, isF64 := w.(float64); isF64 && r.Chance(4) {
-					d[i] = math.NaN() // NaN is a number: it propagates through the group sum AND through the frame-level sum
-				}
 				if _, isF32 := w.(float32); isF32 && r.Chance(30) {
 					d[i] = Pick(r, []float32{0.1, 1.1, 16777.217}) // not short decimals once widened to float64
 				}
 			}
+		}
+		if n > 0 && r.Chance(6) {
+			d[r.Intn(n)] = math.NaN() // NaN is a number: it propagates through the group sum AND through the frame-level sum
 		}
 		df.Columns[vn] = &dataframe.Column[any]{Name: vn, Data: d}
 	}
@@ -174,7 +174,26 @@ func genGrp(r *Rng, tier string) *Enc {
 	// frame-level Sum for the conservation law
 	e.Tok("FS")
 	var tot map[string]float64
-	st, _ := guard(func() error { var err error; tot, err = df.Sum(); return err })
+	// (on the sub-frame of the all-numeric value columns: the frame-level Sum refuses a frame with any other cell)
+	sumFrame := dataframe.NewDataFrame()
+	for _, vn := range vnames {
+		c := df.Columns[vn]
+		allNum := len(c.Data) > 0
+		for _, v := range c.Data {
+			switch v.(type) {
+			case int, int8, int16, int32, int64, uint, uint8, uint16, uint32, uint64, float32, float64:
+			default:
+				allNum = false
+			}
+		}
+		if allNum {
+			sumFrame.Columns[vn] = &dataframe.Column[any]{Name: vn, Data: append([]any{}, c.Data...)}
+		}
+	}
+	if len(sumFrame.Columns) == 0 {
+		sumFrame = df
+	}
+	st, _ := guard(func() error { var err error; tot, err = sumFrame.Sum(); return err })
 	e.Tok("R", st)
 	if st == "ok" {
 		e.Int(len(tot))
